@@ -173,7 +173,7 @@ type Intent struct {
 
 // IntentKinds lists every kind the builder understands.
 var IntentKinds = []string{
-	"pay", "pay", "sf", "form", "form", "fcop", "fcop", "fcop", "attest", "foundation", "arb", "formprove",
+	"pay", "pay", "sf", "form", "form", "fcop", "fcop", "fcop", "attest", "foundation", "arb", "formprove", "sfchain",
 }
 
 // SpecificIntentKinds are the version-specific kinds generic ones resolve to.
@@ -224,7 +224,11 @@ type BlockBuilder struct {
 	taxMoved bool
 	// v1 contracts formed by transactions built or absorbed so far (a v1
 	// revision may follow its formation inside one block / one pool)
-	ephFC  []types.FileContractElement
+	ephFC []types.FileContractElement
+	// siafund outputs of v1 transactions built or absorbed so far (a v1 block
+	// may spend a siafund output it created itself; the claim is implicit, so
+	// unlike v2 nothing about the tax revenue constrains it)
+	ephSF1 []ephSFOut
 	usedWE map[uint64]bool
 	serial int
 	onlyFC *types.FileContractID
@@ -394,6 +398,9 @@ func (bb *BlockBuilder) addV1(txn types.Transaction, kind string) {
 	for i, fc := range txn.FileContracts {
 		bb.ephFC = append(bb.ephFC, types.FileContractElement{ID: txn.FileContractID(i), FileContract: fc})
 	}
+	for i, o := range txn.SiafundOutputs {
+		bb.ephSF1 = append(bb.ephSF1, ephSFOut{txn.SiafundOutputID(i), o, ActorOf(o.Address)})
+	}
 	for _, fcr := range txn.FileContractRevisions {
 		bb.usedFC[fcr.ParentID] = true
 	}
@@ -469,6 +476,19 @@ func (bb *BlockBuilder) Add(in Intent) bool {
 		}
 		bb.serial--
 		return bb.Add(gen)
+	case "sfchain":
+		// a two-step siafund move inside one block: the second transaction
+		// spends a siafund output the first one created
+		g1 := in
+		g1.Kind, g1.Eph = "sf", false
+		bb.serial--
+		if !bb.Add(g1) {
+			return false
+		}
+		g2 := in
+		g2.Kind, g2.Eph, g2.Who, g2.To = "sf", true, in.To, in.Who+1
+		bb.Add(g2)
+		return true
 	case "pay", "sf", "form", "attest", "foundation", "arb", "merge":
 		v2 := in.V2
 		if v2 && !bb.v2Allowed() {
@@ -659,6 +679,29 @@ func (bb *BlockBuilder) Add(in Intent) bool {
 			return false
 		}
 		c := bb.sfCandidates(who)
+		kind := in.Kind
+		if in.Eph {
+			// a siafund output created earlier in this block / pool
+			var ec []types.SiafundElement
+			for _, o := range bb.ephSF1 {
+				if o.owner == who && !bb.spentSF[o.id] {
+					ec = append(ec, types.SiafundElement{ID: o.id, SiafundOutput: o.out})
+				}
+			}
+			if len(ec) == 0 {
+				// whoever owns one spends it
+				for _, o := range bb.ephSF1 {
+					if o.owner >= 0 && !bb.spentSF[o.id] {
+						ec = append(ec, types.SiafundElement{ID: o.id, SiafundOutput: o.out})
+						who = o.owner
+						break
+					}
+				}
+			}
+			if len(ec) > 0 {
+				c, kind = ec, "v1sf-eph"
+			}
+		}
 		if len(c) == 0 {
 			bb.skip(in, "no-input")
 			return false
@@ -676,7 +719,7 @@ func (bb *BlockBuilder) Add(in Intent) bool {
 			txn.SiafundOutputs = append(txn.SiafundOutputs, types.SiafundOutput{Address: Actors[who].Addr, Value: v - give})
 		}
 		signV1(cs, &txn, map[types.Hash256]int{types.Hash256(e.ID): who})
-		bb.addV1(txn, in.Kind)
+		bb.addV1(txn, kind)
 		return true
 
 	case "v1form", "v1formprove":
@@ -1238,6 +1281,9 @@ func (bb *BlockBuilder) Absorb(txns []types.Transaction, v2txns []types.V2Transa
 		for i, fc := range txn.FileContracts {
 			bb.ephFC = append(bb.ephFC, types.FileContractElement{ID: txn.FileContractID(i), FileContract: fc})
 		}
+		for i, o := range txn.SiafundOutputs {
+			bb.ephSF1 = append(bb.ephSF1, ephSFOut{txn.SiafundOutputID(i), o, ActorOf(o.Address)})
+		}
 		for i, o := range txn.SiacoinOutputs {
 			bb.eph = append(bb.eph, ephOut{txn.SiacoinOutputID(i), o, ActorOf(o.Address), false})
 		}
@@ -1288,7 +1334,7 @@ func (bb *BlockBuilder) Reset() {
 
 // DropEphemeral forgets the ephemeral outputs absorbed so far (their
 // creating transactions are not part of what is being built).
-func (bb *BlockBuilder) DropEphemeral() { bb.eph, bb.ephSF, bb.ephFC = nil, nil, nil }
+func (bb *BlockBuilder) DropEphemeral() { bb.eph, bb.ephSF, bb.ephFC, bb.ephSF1 = nil, nil, nil, nil }
 
 // V1Spend builds a signed v1 transaction moving the whole element to another actor.
 func V1Spend(cs consensus.State, e types.SiacoinElement, who, to int, tag int) types.Transaction {
